@@ -2040,6 +2040,8 @@ fn step_unregistered(m: &M, cfg: &SpecCfg, actor: &Actor, verb: &str, p: &[Strin
                 if let Some(rq) = required {
                     if pass.as_ref() != Some(&rq) {
                         e.actor.push(num_any("464"));
+                        // what else is said before the close is free
+                        e.actor.push(ExpLine { prefix: None, cmd: "ERROR".into(), params: vec![P::Rest], req: Req::May });
                         e.actor_closed = true;
                         e.no_welcome = true;
                         return Some(e);
